@@ -56,6 +56,8 @@ def gen_options(rng):
              seq_containers=rng.random() < 0.3, aux_first=rng.random() < 0.3,
              decl_order=rng.choice(['top-down', 'top-down', 'bottom-up', 'shuffled']))
     o['bmafd_left_out'] = o['bmafd'] and rng.random() < 0.5
+    o['plain_factorization'] = rng.random() < 0.3
+    o['seq_hook'] = rng.random() < 0.3
     if o['delim'] and not o['afd'] and rng.random() < 0.4:
         o['nullable_item'] = True
     if o['bdelim'] and rng.random() < 0.4:
@@ -69,7 +71,17 @@ def mk_parser(o):
         # symbol) and used it before the parser under observation is built
         aux = llparser.LLParser(TOK, synonyms=SYN, productions=mk_prods(o), start_symbol_name='VALUE')
         assert aux.parse("[a]" if o['delim'] or True else "") is not None
-    return llparser.LLParser(TOK, synonyms=SYN, productions=mk_prods(o))
+    # (the documented switch of the parser: common prefixes are un-factorized again - the default - or left as they are)
+    return llparser.LLParser(TOK, synonyms=SYN, productions=mk_prods(o),
+                             **({'smart_factorization': False} if o.get('plain_factorization') else {}))
+
+
+class LookingSequence(ProdSequence):
+    CAN_POST_PROCESS_TELEM = True
+    seen = 0
+
+    def transform_t_elem(self, t_elem, cleanuper):
+        LookingSequence.seen += 1
 
 
 def mk_prods(o):
@@ -96,7 +108,9 @@ def mk_prods(o):
         'ITEM': [('VALUE',)] + ([None] if o['nullable_item'] else []),
         'MAP': MapProds('{', 'WORD', ':', 'VALUE', ',', '}', allow_final_delimiter=o['mafd']),
         'SEQ_H': [('<', 'SEQ', '>')],
-        'SEQ': ProdSequence(*seq_symbols),
+        # (... or a sequence class of the application with the post-processing hook the list and map templates have:
+        # it only looks at the element)
+        'SEQ': (LookingSequence if o.get('seq_hook') else ProdSequence)(*seq_symbols),
         'PAR': [('(', 'WORD', ')')],
         'OLIST': ListProds('[', 'WORD', ',', ']', optional=True),
         'OMAP': MapProds('{', 'WORD', ':', 'NUMBER', ',', '}', optional=True),
